@@ -1,8 +1,12 @@
+pub mod c01;
+pub mod c02;
 pub mod c03;
 pub mod c04;
 pub mod c08;
+pub mod c12;
 pub mod c13;
 pub mod c16;
+pub mod c17;
 
 use crate::common::Tier;
 use serde_json::Value;
@@ -10,11 +14,15 @@ use serde_json::Value;
 pub fn run(prop: &str, tier: Tier) -> i32 {
     crate::common::quiet_panics();
     match prop {
+        "C01" => c01::run(tier),
+        "C02" => c02::run(tier),
         "C03" => c03::run(tier),
         "C04" => c04::run(tier),
         "C08" => c08::run(tier),
+        "C12" => c12::run(tier),
         "C13" => c13::run(tier),
         "C16" => c16::run(tier),
+        "C17" => c17::run(tier),
         _ => {
             eprintln!("unknown property {prop}");
             2
@@ -25,11 +33,15 @@ pub fn run(prop: &str, tier: Tier) -> i32 {
 pub fn replay(prop: &str, case: &Value) -> Vec<String> {
     crate::common::quiet_panics();
     match prop {
+        "C01" => c01::replay(case),
+        "C02" => c02::replay(case),
         "C03" => c03::replay(case),
         "C04" => c04::replay(case),
         "C08" => c08::replay("C08", case),
+        "C12" => c12::replay(case),
         "C13" => c13::replay(case),
         "C16" => c16::replay(case),
+        "C17" => c17::replay(case),
         _ => vec![],
     }
 }
